@@ -81,6 +81,8 @@ func (g *Global) checkWhitelist(wl *Whitelist) []*Obligation {
 			o.Detail = fmt.Sprintf("wire layout of %s is [%s], protocol table says [%s]", wl.Target, strings.Join(got, ", "), strings.Join(wl.Allowed, ", "))
 		}
 		return []*Obligation{o}
+	case "owned":
+		return []*Obligation{g.checkOwned(wl, o)}
 	case "callers":
 		for _, fn := range g.allFns {
 			if fn.Synthetic != "" && !strings.Contains(fn.Synthetic, "instance") {
@@ -222,4 +224,187 @@ func (g *Global) checkWhitelist(wl *Whitelist) []*Obligation {
 		o.Detail = fmt.Sprintf("%d sites in %d functions scanned, all inside {%s}", sites, len(g.allFns), strings.Join(wl.Allowed, ", "))
 	}
 	return []*Obligation{o}
+}
+
+// checkOwned decides `owned <label> <owner> : targets`: in the static call relation of the rain
+// module (calls, deferred calls, function values and closures attributed to the function that
+// mentions them), walk backwards from each target without entering the owner. Reaching a
+// function that is started with a go statement, or one that nobody in the module calls (an
+// entry point of the API), means there is a path to the target that does not run inside the
+// owner's goroutine.
+func (g *Global) checkOwned(wl *Whitelist, o *Obligation) *Obligation {
+	o.Kind = "frame.owned"
+	type edge struct {
+		from *ssa.Function
+		pos  string
+		goSt bool
+	}
+	rev := map[*ssa.Function][]edge{}
+	goTarget := map[*ssa.Function]string{}
+	byName := map[string]*ssa.Function{}
+	outer := func(f *ssa.Function) *ssa.Function {
+		for f.Parent() != nil {
+			f = f.Parent()
+		}
+		return f
+	}
+	for _, fn := range g.allFns {
+		if !isRainFn(fn) {
+			continue
+		}
+		if fn.Synthetic != "" && !strings.Contains(fn.Synthetic, "instance") {
+			continue
+		}
+		if fn.Parent() == nil {
+			id := fnID(fn)
+			byName[id] = fn
+			byName[shortID(id)] = fn
+		}
+		for _, b := range fn.Blocks {
+			for _, in := range b.Instrs {
+				_, isGo := in.(*ssa.Go)
+				if ci, ok := in.(ssa.CallInstruction); ok {
+					callee := ci.Common().StaticCallee()
+					if callee == nil {
+						callee = staticClosure(ci.Common().Value)
+					}
+					if callee != nil && isRainFn(callee) {
+						if isGo {
+							goTarget[outer(callee)] = posOf(fn, in.Pos())
+							if callee.Parent() != nil {
+								// go func() {...}(): the literal's body runs in the new goroutine
+								goTarget[callee] = posOf(fn, in.Pos())
+							}
+						}
+						rev[callee] = append(rev[callee], edge{fn, posOf(fn, in.Pos()), isGo})
+					}
+				}
+				var ops []*ssa.Value
+				ops = in.Operands(ops)
+				for _, op := range ops {
+					if op == nil || *op == nil {
+						continue
+					}
+					if f, ok := (*op).(*ssa.Function); ok && isRainFn(f) {
+						if ci, isCall := in.(ssa.CallInstruction); isCall && ci.Common().Value == f {
+							continue
+						}
+						rev[f] = append(rev[f], edge{fn, posOf(fn, in.Pos()), false})
+					}
+				}
+			}
+		}
+	}
+	owner := byName[strings.TrimPrefix(wl.Pkg, modPrefix)+"."+wl.Target]
+	if owner == nil {
+		owner = byName[wl.Target]
+	}
+	if owner == nil {
+		o.Result = "failed"
+		o.Detail = "owner " + wl.Target + " not found (contract target missing)"
+		return o
+	}
+	// `writers:<pkg.Type>` stands for every rain function that directly writes a field of that
+	// struct; `-name` takes a function out of the list again (constructors, fields that have
+	// their own lock).
+	var targets []string
+	excluded := map[string]bool{}
+	for _, tn := range wl.Allowed {
+		if strings.HasPrefix(tn, "-") {
+			excluded[strings.TrimPrefix(tn, "-")] = true
+		}
+	}
+	for _, tn := range wl.Allowed {
+		switch {
+		case strings.HasPrefix(tn, "-"):
+		case strings.HasPrefix(tn, "writers:"):
+			ty := g.lookupType(strings.TrimPrefix(tn, "writers:"))
+			if ty == nil {
+				targets = append(targets, tn)
+				continue
+			}
+			prefix := fmt.Sprintf("F|%s|", typeKey(ty))
+			var found []string
+			for _, fn := range g.allFns {
+				if !isRainFn(fn) || (fn.Synthetic != "" && !strings.Contains(fn.Synthetic, "instance")) {
+					continue
+				}
+				writes := false
+				for k := range g.directWrites(fn) {
+					if strings.HasPrefix(k, prefix) {
+						writes = true
+						break
+					}
+				}
+				if !writes {
+					continue
+				}
+				top := outer(fn)
+				id := shortID(fnID(top))
+				rel := id
+				if top.Pkg != nil {
+					rel = top.RelString(top.Pkg.Pkg)
+				}
+				if excluded[id] || excluded[rel] || contains(found, id) {
+					continue
+				}
+				found = append(found, id)
+			}
+			sort.Strings(found)
+			targets = append(targets, found...)
+		default:
+			targets = append(targets, tn)
+		}
+	}
+	var offs []string
+	visitedTotal := 0
+	for _, tn := range targets {
+		t := byName[strings.TrimPrefix(wl.Pkg, modPrefix)+"."+tn]
+		if t == nil {
+			t = byName[tn]
+		}
+		if t == nil {
+			offs = append(offs, tn+": not found (contract target missing)")
+			continue
+		}
+		seen := map[*ssa.Function]string{t: shortID(fnID(t))}
+		work := []*ssa.Function{t}
+		for len(work) > 0 {
+			f := work[0]
+			work = work[1:]
+			visitedTotal++
+			if f == owner {
+				continue
+			}
+			if where, isGo := goTarget[f]; isGo {
+				offs = append(offs, fmt.Sprintf("%s is reached from %s, which is started as a goroutine at %s (path: %s)", shortID(fnID(t)), shortID(fnID(f)), where, seen[f]))
+				continue
+			}
+			callers := rev[f]
+			if f.Parent() != nil {
+				// a function literal runs where its enclosing function makes it run, unless it is itself a go target
+				callers = append(callers, edge{f.Parent(), posOf(f.Parent(), f.Pos()), false})
+			}
+			if len(callers) == 0 {
+				offs = append(offs, fmt.Sprintf("%s is reached from %s, which nothing in the module calls: an entry point outside %s (path: %s)", shortID(fnID(t)), shortID(fnID(f)), shortID(fnID(owner)), seen[f]))
+				continue
+			}
+			for _, e := range callers {
+				if _, ok := seen[e.from]; ok {
+					continue
+				}
+				seen[e.from] = shortID(fnID(e.from)) + " -> " + seen[f]
+				work = append(work, e.from)
+			}
+		}
+	}
+	sort.Strings(offs)
+	if len(offs) > 0 {
+		o.Result = "failed"
+		o.Detail = "owned by " + wl.Target + ": " + strings.Join(offs, "; ")
+	} else {
+		o.Result = "proved"
+		o.Detail = fmt.Sprintf("%d targets (%s), %d functions walked backwards: every path from a goroutine entry or API entry point passes through %s", len(targets), strings.Join(targets, ", "), visitedTotal, wl.Target)
+	}
+	return o
 }
